@@ -742,9 +742,14 @@ func flushHeredocTemplateParts(parts *templateParts) {
 		// Since we want to count space _characters_ rather than space _bytes_,
 		// we can't just do a straightforward slice operation here and instead
 		// need to hunt for the split point with a scanner.
-		valBytes := []byte(lit.Val)
+		// We only consider the leading whitespace itself, because otherwise
+		// a combining character that directly follows the final space would
+		// be taken as part of that space's grapheme cluster and removed
+		// along with it.
+		trimmed := strings.TrimLeftFunc(lit.Val, unicode.IsSpace)
+		valBytes := []byte(lit.Val[:len(lit.Val)-len(trimmed)])
 		spaceByteCount := 0
-		for i := 0; i < minSpaces; i++ {
+		for i := 0; i < minSpaces && len(valBytes) > 0; i++ {
 			adv, _, _ := textseg.ScanGraphemeClusters(valBytes, true)
 			spaceByteCount += adv
 			valBytes = valBytes[adv:]
